@@ -1,7 +1,9 @@
 import AioslskVerif.Generated.RateConstants
+import AioslskVerif.Generated.XferWire
 /-!
 Model of the file-transfer data plane (C04), transcribed from the FIXED code
-(fixes/C04-zero-remaining.patch, fixes/C04-offset-send-failure.patch, fixes/C04-upload-eof-wait-read-error.patch):
+(fixes/C04-zero-remaining.patch, fixes/C04-offset-send-failure.patch, fixes/C04-upload-eof-wait-read-error.patch,
+fixes/C04-upload-failed-undelivered.patch):
 
 * `PeerConnection.receive_file` / `send_file` / `receive_until_eof` (network/connection.py:414-433, 699-755)
 * `TransferManager._initialize_download` from "calculate and send the offset" on, `_download_file`,
@@ -20,6 +22,46 @@ abbrev Bytes := List UInt8
 
 /-- tokens granted per `take_tokens()` call: 128 with a limit, 8192 without (rate_limiter.py). -/
 def chunkOf (limited : Bool) : Nat := if limited then minBucket else unlimitedGrant
+
+/-! ## The two raw values of the file-connection hand-shake
+
+The uploader opens the file connection and writes the ticket, the downloader answers with the offset; both are bare
+little-endian numbers, no length, no message code. Numbers are unbounded in this model, on the wire they are not:
+the ticket has 4 bytes, the offset 8 (files larger than 4 GiB exist, their downloads get interrupted beyond 4 GiB too).
+What the senders write is transcribed here; how many bytes the receivers take from the stream and how many of them
+they decode is REGENERATED from the code (`Generated/XferWire.lean`, translate/xfer_wire.py). -/
+namespace Wire
+open AioslskVerif.Generated.XferWire
+
+/-- `n` as `w` little-endian bytes (`struct.pack('<I' / '<Q', n)`; Python raises for a number that does not fit,
+the statements below carry `n < 256 ^ w`) -/
+def leBytes : Nat → Nat → Bytes
+  | 0, _ => []
+  | w + 1, n => UInt8.ofNat (n % 256) :: leBytes w (n / 256)
+
+def leVal : Bytes → Nat
+  | [] => 0
+  | b :: r => b.toNat + 256 * leVal r
+
+/-- transfer/manager.py `_initialize_upload`: `connection.send_message(uint32(ticket).serialize())` -/
+def ticketSendBytes : Nat := 4
+/-- transfer/manager.py `_initialize_download`: `file_connection.send_message(uint64(offset).serialize())` -/
+def offsetSendBytes : Nat := 8
+
+def sendTicket (t : Nat) : Bytes := leBytes ticketSendBytes t
+def sendOffset (o : Nat) : Bytes := leBytes offsetSendBytes o
+
+/-- network/connection.py `receive_transfer_ticket` / `receive_transfer_offset`: `readexactly(read)`, then the number
+made of the first `dec` of those bytes; `none` = not all `read` bytes are there yet (the reader keeps waiting,
+whatever the segmentation) -/
+def recvValue (read dec : Nat) (stream : Bytes) : Option (Nat × Bytes) :=
+  if stream.length < read then none
+  else some (leVal ((stream.take read).take dec), stream.drop read)
+
+def recvTicket : Bytes → Option (Nat × Bytes) := recvValue ticketReadBytes ticketDecodeBytes
+def recvOffset : Bytes → Option (Nat × Bytes) := recvValue offsetReadBytes offsetDecodeBytes
+
+end Wire
 
 /-! ## Download side -/
 
@@ -208,7 +250,8 @@ structure Ul where
   chunk : Nat
   st : UState
   peerClosed : Bool   -- ghost: `receive_until_eof` returned: the peer closed the connection in an orderly way
-  puf : Nat := 0      -- ghost: `PeerUploadFailed` messages sent to the downloader so far
+  puf : Nat := 0      -- ghost: `PeerUploadFailed` messages delivered to the peer connection so far
+  notifying : Bool := false   -- `_upload_file` is inside `send_peer_messages(PeerUploadFailed)` (the task still runs)
 deriving Repr
 
 def Ul.init (F : Bytes) : Ul :=
@@ -218,9 +261,14 @@ def Ul.init (F : Bytes) : Ul :=
 inductive UOp
   | begin (offset : Nat) (limited : Bool)   -- offset received: `bytes_transfered = offset`, UPLOADING, seek
   | chunk                                   -- one iteration of the `send_file` loop, write succeeded
-  | werr                                    -- `send_data` raised ConnectionWriteError
+  | werr                                    -- `send_data` raised ConnectionWriteError: FAILED, then the send of
+                                            --   PeerUploadFailed begins (it may take long: a new peer connection)
   | closed                                  -- the peer closed the connection (EOF)
-  | rerr                                    -- the connection broke / timed out (read error)
+  | rerr                                    -- the connection broke / timed out (read error): as `werr`
+  | told                                    -- … `send_peer_messages(PeerUploadFailed)` returned
+  | untold                                  -- … it raised (PeerConnectionError: no connection to the peer /
+                                            --   ConnectionWriteError: the connection died under the write)
+  | requeue                                 -- the downloader asks again (`_on_peer_transfer_queue`): FAILED / COMPLETE → QUEUED
 deriving Repr
 
 /-- `_initialize_upload` from the received offset on: `bytes_transfered = offset`, UPLOADING, `seek(offset)`. -/
@@ -230,14 +278,18 @@ def ubegin (u : Ul) (off : Nat) (lim : Bool) : Ul :=
 
 def ustep (F : Bytes) (u : Ul) : UOp → Ul
   | .begin off lim =>
-    if u.st = .queued ∨ u.st = .failed ∨ u.st = .complete then ubegin u off lim else u
+    -- (`manage_transfers` starts no second task while the one that is still notifying runs: `_is_running`)
+    if (u.st = .queued ∨ u.st = .failed ∨ u.st = .complete) ∧ u.notifying = false then ubegin u off lim else u
   | .chunk =>
     if u.st = .sending then
       let data := (F.drop u.pos).take u.chunk
       if data = [] then { u with st := .awaitEof }      -- `if not data: return`, then `receive_until_eof`
       else { u with sent := u.sent ++ data, pos := u.pos + data.length, bt := u.bt + data.length }
     else u
-  | .werr => if u.st = .sending then { u with st := .failed, puf := u.puf + 1 } else u
+  | .werr =>
+    -- `_upload_file`, `except (ConnectionWriteError, ConnectionReadError)`: `await transfer.state.fail()` FIRST — from
+    -- here on a re-request of the downloader re-queues the upload —, then the downloader is told
+    if u.st = .sending then { u with st := .failed, notifying := true } else u
   | .closed =>
     if u.st = .awaitEof then
       { u with peerClosed := true, st := if u.filesize = u.bt then .complete else .failed }
@@ -245,7 +297,14 @@ def ustep (F : Bytes) (u : Ul) : UOp → Ul
   | .rerr =>
     -- FIXED `_upload_file` (fixes/C04-upload-eof-wait-read-error.patch): a connection that breaks while the
     -- uploader waits for the downloader's close is a failure like a write error: FAILED, PeerUploadFailed
-    if u.st = .awaitEof then { u with st := .failed, puf := u.puf + 1 } else u
+    if u.st = .awaitEof then { u with st := .failed, notifying := true } else u
+  | .told => if u.notifying then { u with notifying := false, puf := u.puf + 1 } else u
+  | .untold =>
+    -- FIXED `_upload_file` (fixes/C04-upload-failed-undelivered.patch): the downloader could not be told — it may be
+    -- waiting for this uploader (its re-request was ignored while the upload ran): a still FAILED upload goes back
+    -- to the queue and is offered again
+    if u.notifying then { u with notifying := false, st := if u.st = .failed then .queued else u.st } else u
+  | .requeue => if u.st = .failed ∨ u.st = .complete then { u with st := .queued } else u
 
 def urun (F : Bytes) (u : Ul) (ops : List UOp) : Ul := ops.foldl (ustep F) u
 
@@ -257,7 +316,10 @@ The messages that start, restart and give up attempts (transfer/manager.py: `man
 model above and appears here only through its outcome. Both peer-message directions are FIFO (one `P` connection
 each way), the file connection is separate: its events (`dLearn`, `uLearn`, `uEof`) interleave freely with the
 messages. Tickets are not modelled: a stale reply is accepted where the code would drop it (more behaviours, the
-invariant covers them). Faults are connection RESETS, seen by the two ends in either order, any time apart; a
+invariant covers them). Faults are connection RESETS, seen by the two ends in either order, any time apart, and
+control writes that FAIL (the writer is told: `uLearnMute`, `dCycleFail`, `dRecvFail`; a failing PeerTransferRequest
+leaves the upload QUEUED — no change here); a message that a write ACCEPTED is delivered — losing one silently is not
+repairable without acknowledgements. A
 downloader that gives up by its own read time-out closes the connection in an orderly way — that path is NOT in the
 alphabet (see the remark at `C04_pair_no_requeue_lost`). -/
 namespace Ctl
@@ -301,6 +363,11 @@ inductive Op
   | uEof         -- the uploader sees that orderly close
   | dLearn       -- FAULT: the downloader's end of the file connection reports the reset → INCOMPLETE
   | uLearn       -- FAULT: the uploader's end reports it (sending, or — FIXED — waiting for the close) → FAILED + PeerUploadFailed
+  | uLearnMute   -- FAULT: … and PeerUploadFailed cannot be delivered (the peer connection broke too: the write fails /
+                 --   no connection can be made) → FIXED: the upload goes back to the queue
+  | dCycleFail   -- FAULT: the downloader's PeerTransferQueue cannot be written (`_queue_remotely`): → QUEUED, not remotely queued
+  | dRecvFail    -- FAULT: the downloader handles the oldest message, but its reply cannot be written: an accepting
+                 --   download goes back to QUEUED (`_initialize_download`), a refusal is lost
   | dUser        -- pause() / abort()
   | dQueue       -- queue() by the user
 deriving DecidableEq, Repr
@@ -339,6 +406,15 @@ def step (s : S) : Op → S
   | .dLearn => if s.d = .downloading then { s with d := .incomplete } else s
   | .uLearn =>
     if s.u = .uploading ∨ s.u = .eofWait then { s with u := .failed, toD := s.toD ++ [.puf] } else s
+  | .uLearnMute =>
+    -- FIXED `_upload_file` (fixes/C04-upload-failed-undelivered.patch); before: `u := .failed`, nothing in flight
+    if s.u = .uploading ∨ s.u = .eofWait then { s with u := .queued } else s
+  | .dCycleFail => if retryable s.d && !s.rq then { s with d := .queued } else s
+  | .dRecvFail =>
+    match s.toD with
+    | [] => s
+    | .ptr :: r => if retryable s.d then { s with toD := r, d := .queued, rq := false } else { s with toD := r }
+    | .puf :: _ => s        -- nothing is written in answer to a PeerUploadFailed
   | .dUser => if s.d = .complete then s else { s with d := .user }
   | .dQueue => if s.d = .user ∨ s.d = .incomplete then { s with d := .queued, rq := false } else s
 
